@@ -693,10 +693,14 @@ class WaveShareNmea2000Gateway(AsyncIOClient):
             start = self._buffer.find(b"\xaa\x55")
 
             if start == -1:
-                # If start marker not found, wait for more data
+                # If start marker not found, wait for more data. Nothing in the buffer can belong to
+                # a packet except a trailing 0xAA (possibly the first half of a marker): drop the rest.
+                keep = 1 if self._buffer.endswith(b"\xaa") else 0
+                del self._buffer[:len(self._buffer) - keep]
                 break
             if start + 20 > len(self._buffer):
-                # Not enough data for a full packet yet
+                # Not enough data for a full packet yet. Drop the noise in front of the marker.
+                del self._buffer[:start]
                 break
 
             # Extract the complete packet, including the end delimiter
